@@ -22,6 +22,30 @@ EXTRA: dict[str, dict[str, Any]] = {
 }
 
 
+def variants() -> dict[str, list[dict[str, Any]]]:
+    """Non-default option sets per class ('Cover#1' = Cover with the first set): the options that change how a received value is
+    interpreted (inversions, ranges, modes, steps), which the default configuration never exercises."""
+    from xknx.devices.climate import SetpointShiftMode
+
+    return {
+        "Cover": [{"invert_position": True, "invert_angle": True, "invert_updown": True}],
+        "Climate": [{"setpoint_shift_mode": SetpointShiftMode.DPT6010, "temperature_step": 0.5, "on_off_invert": True},
+                    {"setpoint_shift_mode": SetpointShiftMode.DPT9002, "temperature_step": 0.25, "min_temp": 10, "max_temp": 30}],
+        "Switch": [{"invert": True}],
+        "BinarySensor": [{"invert": True, "ignore_internal_state": True}],
+        "Fan": [{"max_step": 3}],
+        "Light": [{"min_kelvin": 2000, "max_kelvin": 7000}],
+        "Sensor": [{"value_type": "percent"}, {"value_type": "counter_pulses"}, {"value_type": "percentV8"}],
+        "NumericValue": [{"value_type": "percent"}],
+        "ExposeSensor": [{"value_type": "percent"}],
+        "RawValue": [{"payload_length": 0}, {"payload_length": 2}],
+    }
+
+
+def variant_names() -> list[str]:
+    return [f"{c}#{i + 1}" for c, vs in variants().items() for i in range(len(vs))]
+
+
 def device_classes() -> list[str]:
     out = []
     for n in sorted(dir(D)):
@@ -42,8 +66,13 @@ def build(xknx: Any, cls_name: str, name: str, pool: list[str], off: int = 0, st
     Returns (device, the set of address strings the harness assigned) - the reference for dispatch, independent of
     Device.group_addresses()/has_group_address().
     """
+    extra: dict[str, Any] = {}
+    if "#" in cls_name:
+        cls_name, vi = cls_name.split("#")
+        extra = variants()[cls_name][int(vi) - 1]
     cls = getattr(D, cls_name)
     kwargs: dict[str, Any] = dict(EXTRA.get(cls_name, {}))
+    kwargs.update(extra)
     used: set[str] = set()
     for i, p in enumerate(ga_params(cls_name)):
         if i % stride != off % stride:
